@@ -100,6 +100,13 @@ class Fold(ast.NodeTransformer):
 
     def visit_Call(self, n):
         self.generic_visit(n)
+        # zip(K(a, b), ..) / tuple(K(a, b)) / list(K(a, b)): a NamedTuple construction iterated on the spot is the display of its arguments
+        if isinstance(n.func, ast.Name) and n.func.id in ("zip", "tuple", "list", "enumerate"):
+            for i_, a_ in enumerate(n.args):
+                d_ = self._record_display(a_)
+                if d_ is not None:
+                    n.args[i_] = d_
+                    self.changed = True
         # g(**K(a=x, b=y)._asdict())  with K a plain NamedTuple record of the repository  ->  g(a=x, b=y)
         if self.repo is not None and any(k.arg is None for k in n.keywords):
             from .normalize import record_fields
@@ -261,6 +268,48 @@ class Fold(ast.NodeTransformer):
         if isinstance(n.test, ast.Constant) and isinstance(n.test.value, (bool, type(None))):
             self.changed = True
             return n.body if n.test.value else n.orelse
+        return n
+
+    def _record_display(self, e):
+        """K(a, b, c) with K a NamedTuple record of the repository -> (a, b, c) ; None otherwise"""
+        if self.repo is None or not (isinstance(e, ast.Call) and isinstance(e.func, ast.Name)):
+            return None
+        from .normalize import record_fields
+        fields = record_fields(self.repo, self.f.mod, e.func.id, allow_methods=True)
+        if fields is None or any(isinstance(a, ast.Starred) for a in e.args) or any(k.arg is None for k in e.keywords) or len(e.args) + len(e.keywords) != len(fields):
+            return None
+        cq = self.repo.chase(self.f.mod, e.func.id)
+        cn = self.repo.classes.get(cq) if cq else None
+        if cn is not None and not any(U(b) in ("NamedTuple", "typing.NamedTuple") for b in cn.bases):
+            return None         # a dataclass is not iterable
+        vals = dict(zip(fields, e.args))
+        vals.update({k.arg: k.value for k in e.keywords})
+        if set(vals) != set(fields):
+            return None
+        return ast.Tuple(elts=[vals[fl] for fl in fields], ctx=ast.Load())
+
+    def visit_Starred(self, n):
+        self.generic_visit(n)
+        d = self._record_display(n.value)
+        if d is not None:
+            n.value = d
+            self.changed = True
+        return n
+
+    def visit_For(self, n):
+        self.generic_visit(n)
+        d = self._record_display(n.iter)
+        if d is not None:
+            n.iter = d
+            self.changed = True
+        return n
+
+    def visit_comprehension(self, n):
+        self.generic_visit(n)
+        d = self._record_display(n.iter)
+        if d is not None:
+            n.iter = d
+            self.changed = True
         return n
 
     def visit_Attribute(self, n):
@@ -1648,8 +1697,8 @@ def propagate_record_locals(repo, f):
                 if isinstance(x, ast.Name) and binds.get(x.id, 0) > 1:
                     stable = False
         cq = repo.chase(f.mod, rec.func.id)
-        cn = repo.classes[cq]
-        is_nt = any(U(b) in ("NamedTuple", "typing.NamedTuple") for b in cn.bases)
+        cn = repo.classes.get(cq) if cq else None
+        is_nt = cn is None or any(U(b) in ("NamedTuple", "typing.NamedTuple") for b in cn.bases)
         par = {}
         for n in ast.walk(f.node):
             for c in ast.iter_child_nodes(n):
@@ -1664,7 +1713,7 @@ def propagate_record_locals(repo, f):
         disp = lambda: ast.Tuple(elts=[copy.deepcopy(vals[fl]) for fl in fields], ctx=ast.Load())
         # @property members of the record whose body is one return expression over self.<field> / other such properties
         props = {}
-        pdefs = {m.name: m for m in cn.body if isinstance(m, ast.FunctionDef) and any(U(d) == "property" for d in m.decorator_list)}
+        pdefs = {m.name: m for m in (cn.body if cn is not None else []) if isinstance(m, ast.FunctionDef) and any(U(d) == "property" for d in m.decorator_list)}
         for _ in range(3):
             for pname, m in pdefs.items():
                 if pname in props:
@@ -1736,6 +1785,9 @@ def propagate_record_locals(repo, f):
 
             def visit_Call(self, n):
                 self.generic_visit(n)
+                if is_nt and isinstance(n.func, ast.Attribute) and n.func.attr == "_asdict" and isinstance(n.func.value, ast.Name) and n.func.value.id == t and not n.args and not n.keywords:
+                    RW.hit = True
+                    return ast.copy_location(ast.Dict(keys=[ast.Constant(value=fl) for fl in fields], values=[copy.deepcopy(vals[fl]) for fl in fields]), n)
                 if is_nt and isinstance(n.func, ast.Name) and n.func.id in ("tuple", "list") and len(n.args) == 1 and isinstance(n.args[0], ast.Name) and n.args[0].id == t and not n.keywords:
                     RW.hit = True
                     d = disp()
@@ -1946,7 +1998,32 @@ def expand_constant_dicts(fnode):
                 break
         n_literal = len(init.value.keys) if isinstance(init.value, ast.Dict) else len(init.value.keywords)
         if view_uses and len(keys) != n_literal:
-            ok = False
+            # keys added after the display: fine if each is stored exactly once, by a statement of the same statement list as the display,
+            # before the first view is taken (insertion order is then display order followed by the order of those statements)
+            owner_list = None
+            for n_ in ast.walk(fnode):
+                for fld in ("body", "orelse", "finalbody"):
+                    sub = getattr(n_, fld, None)
+                    if isinstance(sub, list) and any(x is init for x in sub):
+                        owner_list = sub
+            added = keys[n_literal:]
+            first_view = min(getattr(v_, "lineno", 10 ** 9) for v_ in view_uses)
+            order = []
+            good = owner_list is not None
+            if good:
+                for st_ in owner_list:
+                    if isinstance(st_, ast.Assign) and len(st_.targets) == 1 and isinstance(st_.targets[0], ast.Subscript) and isinstance(st_.targets[0].value, ast.Name) \
+                            and st_.targets[0].value.id == d and isinstance(st_.targets[0].slice, ast.Constant) and st_.targets[0].slice.value in added:
+                        if getattr(st_, "lineno", 0) >= first_view:
+                            good = False
+                        order.append(st_.targets[0].slice.value)
+                all_stores = [p_ for x in walk_own(fnode) if isinstance(x, ast.Name) and x.id == d for p_ in [par.get(x)]
+                              if isinstance(p_, ast.Subscript) and isinstance(p_.ctx, ast.Store) and isinstance(p_.slice, ast.Constant) and p_.slice.value in added]
+                good = good and sorted(order) == sorted(added) and len(all_stores) == len(added)
+            if good:
+                keys[n_literal:] = order
+            else:
+                ok = False
         if not ok or not keys:
             continue
         # every loaded key must be known
